@@ -179,6 +179,12 @@ func (s *Session) WrapWith(tr string, i int, kind string, names []string) Event 
 		s.Wrap = "sub"
 		nested := strings.HasPrefix(kind, "subn:")
 		s.SubDir = strings.TrimPrefix(strings.TrimPrefix(kind, "subn:"), "sub:")
+		s.SubDir2 = ""
+
+		if i := strings.Index(s.SubDir, "+"); i >= 0 {
+			// a second view of the same parent, made right after the first
+			s.SubDir, s.SubDir2 = s.SubDir[:i], s.SubDir[i+1:]
+		}
 
 		steps := []string{s.SubDir}
 		if nested {
@@ -209,6 +215,15 @@ func (s *Session) WrapWith(tr string, i int, kind string, names []string) Event 
 
 		if !s.Dead {
 			s.FS = view
+		}
+
+		if !s.Dead && s.SubDir2 != "" {
+			v2, err := s.Base.Sub(s.SubDir2)
+			if err != nil {
+				s.Dead = true
+			} else {
+				s.FS2 = v2
+			}
 		}
 	case kind == "basepath":
 		s.BasePath = "/" + WorkDir + "/B"
@@ -249,6 +264,11 @@ func (s *Session) WrapWith(tr string, i int, kind string, names []string) Event 
 	if s.Wrap == "sub" {
 		c.Flag = []string{"sub"}
 		c.P = ParsePath(s.SubDir)
+
+		if s.SubDir2 != "" {
+			c.Q = ParsePath(s.SubDir2)
+			c.N = 2
+		}
 	}
 
 	if strings.HasPrefix(kind, "failfs") {
